@@ -59,3 +59,4 @@ VH_ENTRY vh_clonefeatures() {
   ASSERT(got->size() == 1 && (*got)[0] == ref, "language lookup: the values of the first record with that tag, the font defaults otherwise (record order does not matter)");
   VH_END();
 }
+
